@@ -1,4 +1,7 @@
 (* C04 property theorems (statements only; proofs are in Proofs.v).
+   Model of the REPAIRED code (fixes F12 F13 F13b F13c); the loop test of receive_file, is_transfered,
+   the progress counter, offset width, open mode, receive size and seek come from SlskGen.C04Gen,
+   regenerated from /repo/src on every run by translate/tr_c04.py.
    Files are byte lists; one attempt of a transfer is a total function (Model.v):
      download_session announced local send_ok stream term chunks   (any sender, honest or not)
      upload_session   src filesize offset grant cut peer_closes
@@ -62,8 +65,8 @@ Proof. exact upload_wire_prefix. Qed.
 
 (* The offset sent is the size of the local file (as 8 bytes little endian, decodable below 2^64);
    in a retry chain each attempt announces the size of the file left by the previous attempt. *)
-Theorem C04_resume_offset : forall a local stream t chunks,
-  let r := download_session a local true stream t chunks in
+Theorem C04_resume_offset : forall fsz local stream t chunks,
+  let r := download_session (Some fsz) local true stream t chunks in
   d_offset r = Some (len local) /\ d_wire r = le 8 (Z.to_N (len local)) /\
   (len local < 2 ^ 64 -> Z.of_N (le_decode (d_wire r)) = len local).
 Proof. exact resume_offset. Qed.
@@ -73,12 +76,26 @@ Theorem C04_resume_offset_chain : forall src local f ch r,
   Some (len local) :: retry_offsets src (retry src local [(f, ch)]) r.
 Proof. exact retry_offsets_step. Qed.
 
-(* when the offset cannot be sent nothing is written (the state is left INITIALIZING: see
-   C04_terminal_refuted) *)
-Theorem C04_no_offset_no_write : forall a local stream t chunks,
-  let r := download_session a local false stream t chunks in
-  d_local r = local /\ d_state r = DWedgedInit /\ d_offset r = None.
+(* when the offset cannot be sent nothing is written and the transfer goes back to QUEUED; a
+   request without a file size is refused and leaves everything as it was *)
+Theorem C04_no_offset_no_write : forall fsz local stream t chunks,
+  let r := download_session (Some fsz) local false stream t chunks in
+  d_local r = local /\ d_state r = DQueued /\ d_offset r = None /\ d_wire r = [].
 Proof. exact no_offset_no_write. Qed.
+
+Theorem C04_refused_untouched : forall local ok stream t chunks,
+  let r := download_session None local ok stream t chunks in
+  d_local r = local /\ d_state r = DRefused /\ d_offset r = None /\ d_wire r = [].
+Proof. exact refused_untouched. Qed.
+
+(* nothing expected (local file already as large as announced, or larger): nothing is read, so
+   nothing a sender pushes is appended; COMPLETE exactly when the sizes agree *)
+Theorem C04_nothing_expected_nothing_written : forall fsz local stream t chunks,
+  fsz <= len local ->
+  d_local (download_session (Some fsz) local true stream t chunks) = local /\
+  d_state (download_session (Some fsz) local true stream t chunks) =
+    (if Z.eqb fsz (len local) then DComplete else DFailedCancelled).
+Proof. exact nothing_expected_nothing_written. Qed.
 
 (* Segmentation does not matter (no excess bytes): file, state, counter, offset are the same for
    any two lists of read sizes; same for the uploader and the limiter's grant size. *)
@@ -96,56 +113,37 @@ Theorem C04_upload_grant_irrelevant : forall src fsz off g1 g2 pc,
   u_wire r1 = u_wire r2 /\ u_state r1 = u_state r2 /\ u_bt r1 = u_bt r2.
 Proof. exact upload_grant_irrelevant. Qed.
 
-(* Eventual completion, as far as it holds: after any faults, if bytes are still missing, one
-   fault-free attempt ends COMPLETE with the identical file; and the uploader of a fault-free
-   attempt ends COMPLETE having sent exactly the remainder. *)
-Theorem C04_eventual_partial : forall fs src local ch,
-  prefix local src -> len (retry src local fs) < len src ->
+(* Eventual completion: after ANY faults (from any prefix, for ANY remainder including the empty
+   one: 0-byte file, local file already complete) one fault-free attempt ends COMPLETE with the
+   identical file; the uploader of a fault-free attempt ends COMPLETE having sent exactly the
+   remainder. *)
+Theorem C04_eventual : forall fs src local ch,
+  prefix local src ->
   d_state (pair_download src (retry src local fs) NoFault ch) = DComplete /\
   d_local (pair_download src (retry src local fs) NoFault ch) = src.
-Proof. exact eventual_partial. Qed.
+Proof. exact eventual. Qed.
 
 Theorem C04_eventual_upload : forall src local grant, prefix local src -> len src < 2 ^ 63 ->
   u_state (pair_upload src local NoFault grant) = UComplete /\
   local ++ u_wire (pair_upload src local NoFault grant) = src.
 Proof. exact pair_upload_complete. Qed.
 
-(* The full statement (no condition on the remainder) is false of the current code: finding F12.
-   With nothing left to receive (0-byte file, or local file already complete) the downloader still
-   waits for a first read while the uploader waits for EOF; the attempt ends INCOMPLETE by the read
-   timeout, leaves the file as it is, and so does every later attempt. *)
-Theorem C04_eventual_refuted : exists src local fs ch,
-  prefix local src /\ d_state (pair_download src (retry src local fs) NoFault ch) <> DComplete.
-Proof. exact eventual_refuted. Qed.
+(* Every attempt, whatever the sender announces or sends and however the connection ends, leaves
+   the download in a non-processing state (COMPLETE / INCOMPLETE / FAILED / QUEUED / untouched). *)
+Theorem C04_terminal : forall a local ok stream t chunks,
+  d_terminal (d_state (download_session a local ok stream t chunks)).
+Proof. exact terminal. Qed.
 
-Theorem C04_eventual_stuck_forever : forall n src ch,
-  retry src src (repeat (NoFault, ch) n) = src /\
-  d_state (pair_download src (retry src src (repeat (NoFault, ch) n)) NoFault ch) = DIncomplete.
-Proof. exact empty_remainder_stuck_forever. Qed.
-
-(* An attempt leaves the download in a terminal state (COMPLETE / INCOMPLETE / FAILED) when a size
-   was announced and the offset could be sent.  Otherwise not: without a size
-   (PeerTransferRequest.filesize omitted) it is left DOWNLOADING with a dead task (finding F13);
-   when sending the offset fails it is left INITIALIZING with a finished task (finding F13b). *)
-Theorem C04_terminal_partial : forall fsz local stream t chunks,
-  d_terminal (d_state (download_session (Some fsz) local true stream t chunks)).
-Proof. exact terminal_partial. Qed.
-
-Theorem C04_terminal_refuted :
-  (exists local stream t chunks, d_state (download_session None local true stream t chunks) = DWedged) /\
-  (exists a local stream t chunks, d_state (download_session a local false stream t chunks) = DWedgedInit).
-Proof. exact terminal_refuted. Qed.
-
-(* Upload: terminal (COMPLETE / FAILED / QUEUED) when the peer closes and the offset is < 2^63; an
-   offset >= 2^63 leaves it UPLOADING with a dead task (finding F13c). *)
-Theorem C04_upload_terminal_partial : forall src fsz off grant cut,
-  match off with Some o => (o < 2 ^ 63)%N | None => True end ->
+(* Upload: whenever the peer closes the connection the upload ends COMPLETE / FAILED / QUEUED, for
+   every offset the downloader may announce (no offset, 0 .. 2^64-1). *)
+Theorem C04_upload_terminal : forall src fsz off grant cut,
   u_terminal (u_state (upload_session src fsz off grant cut true)).
-Proof. exact upload_terminal_partial. Qed.
+Proof. exact upload_terminal. Qed.
 
-Theorem C04_upload_terminal_refuted : exists src fsz o grant cut pc,
-  u_state (upload_session src fsz (Some o) grant cut pc) = UWedged.
-Proof. exact upload_terminal_refuted. Qed.
+Theorem C04_upload_huge_offset : forall src fsz o grant cut pc, (2 ^ 63 <= o)%N ->
+  u_state (upload_session src fsz (Some o) grant cut pc) = UFailedRead /\
+  u_wire (upload_session src fsz (Some o) grant cut pc) = [].
+Proof. exact upload_huge_offset. Qed.
 
 (* non-vacuity: concrete attempts meeting the hypotheses, with non-trivial outcomes *)
 Example C04_prefix_inv_nonvacuous :
@@ -158,7 +156,9 @@ Example C04_complete_sound_nonvacuous :
   d_state (download_session (Some 5) [1;2]%N true [3;4]%N TReset [2]%N) = DIncomplete /\
   d_state (download_session (Some 5) [1;2]%N true [3;4]%N TEof [2]%N) = DFailedCancelled /\
   d_state (download_session (Some 5) [1;2]%N true [9;9;9;9]%N TTimeout [4]%N) = DFailedCancelled /\
-  d_state (download_session (Some 5) [1;2]%N true [9;9;9;9]%N TTimeout [3;1]%N) = DComplete.
+  d_state (download_session (Some 5) [1;2]%N true [9;9;9;9]%N TTimeout [3;1]%N) = DComplete /\
+  d_local (download_session (Some 2) [1;2]%N true [9;9;9;9]%N TTimeout [3;1]%N) = [1;2]%N /\
+  d_state (download_session (Some 1) [1;2]%N true [9;9;9;9]%N TEof [3;1]%N) = DFailedCancelled.
 Proof. repeat split; reflexivity. Qed.
 
 Example C04_complete_sound_upload_nonvacuous :
@@ -167,7 +167,9 @@ Example C04_complete_sound_upload_nonvacuous :
   u_state (upload_session [1;2;3;4;5]%N 5 (Some 2%N) 2 (Some 1) true) = UFailed /\
   u_wire (upload_session [1;2;3;4;5]%N 5 (Some 2%N) 2 (Some 1) true) = [3;4]%N /\
   u_state (upload_session [1;2;3;4;5]%N 5 (Some 9%N) 2 None true) = UFailed /\
-  u_state (upload_session [1;2;3;4;5]%N 5 (Some 2%N) 2 None false) = UStuck.
+  u_state (upload_session [1;2;3;4;5]%N 5 (Some 2%N) 2 None false) = UStuck /\
+  u_state (upload_session [1;2;3;4;5]%N 5 (Some 18446744073709551615%N) 2 None false) = UFailedRead /\
+  u_state (upload_session [1;2;3;4;5]%N 5 None 2 None true) = UQueued.
 Proof. repeat split; reflexivity. Qed.
 
 Example C04_resume_offset_nonvacuous :
@@ -183,8 +185,16 @@ Proof. repeat split; reflexivity. Qed.
 
 Example C04_eventual_nonvacuous :
   len (retry [1;2;3]%N [] [(CutEof 1, []); (CutReset 1, [])]) < len [1;2;3]%N /\
-  d_state (pair_download [1;2;3]%N [1;2;3]%N NoFault []) = DIncomplete /\
-  d_state (pair_download [] [] NoFault []) = DIncomplete /\
+  d_state (pair_download [1;2;3]%N [1;2;3]%N NoFault []) = DComplete /\
+  d_state (pair_download [] [] NoFault []) = DComplete /\
+  d_reads (pair_download [] [] NoFault []) = [] /\
+  retry [1;2;3]%N [] [(CutReset 3, [1]%N); (NoFault, [])] = [1;2;3]%N /\
   pair_session [1;2;3]%N [1]%N (CutReset 1) [] 8192 =
     (mkD [1;2]%N DIncomplete (Some 1) [1;0;0;0;0;0;0;0]%N 2 [1], mkU [2;3]%N UComplete 3 false).
+Proof. repeat split; reflexivity. Qed.
+
+Example C04_terminal_nonvacuous :
+  d_state (download_session None [1]%N true [2]%N TEof []) = DRefused /\
+  d_state (download_session (Some 3) [1]%N false [2]%N TEof []) = DQueued /\
+  d_state (download_session (Some 3) [1]%N true [2]%N TReset []) = DIncomplete.
 Proof. repeat split; reflexivity. Qed.
